@@ -387,14 +387,24 @@ def when_flushed_table(chk, P, prefix):
             for path in b.acyclic_paths(0, rb):
                 ps = mir.PathSummary(b, path)
                 dec = {}
+                feasible = True
                 for bb, o, vals in ps.decisions():
+                    t = mir.truthy(vals)
+                    cv = mir.o_const_value(o)
+                    if isinstance(cv, bool) and t is not None and cv != t:
+                        feasible = False   # a boolean computed earlier on this very path contradicts the edge taken
+                        break
                     nm, pol = atom(b, o)
                     if nm is None:
                         continue
-                    t = mir.truthy(vals)
                     if t is None:
                         continue
+                    if nm in dec and dec[nm] != (t == pol):
+                        feasible = False   # the same state bit decided both ways
+                        break
                     dec[nm] = (t == pol)
+                if not feasible:
+                    continue
                 what = "immediate" if imm[0].bb in ps.pos else ("deferred" if dfr[0].bb in ps.pos else "neither")
                 rows.append((dec, what))
         for vals in itertools.product([False, True], repeat=3):
